@@ -185,6 +185,35 @@ theorem never_permanently_silent_timed (s : Station) (apps : Apps) (l : Int) (hi
     (by intro x hx; simp at hx; have := hmono j; rcases hx with rfl | rfl | rfl <;> omega)
     (by simp)
 
+/-- **`never_permanently_silent_any`**: no assumption on the stamp.  From EVERY online state satisfying
+the invariant — with a registered bus activity `l` or without any (then the first poll `t0` starts the
+clock: `l := t0`) — a silent-bus schedule `t0 :: pre ++ late` whose last three or more polls are later
+than `l + T` contains a transmission. -/
+theorem never_permanently_silent_any (s : Station) (apps : Apps) (hinv : Inv s apps) (hon : s.online = true)
+    (t0 : Int) (pre late : List Int)
+    (hlate : ∀ t ∈ late, s.lastBusActivity.getD t0 + (s.p.silence : Nat) < t) (h3 : 3 ≤ late.length) :
+    TransmitsWithin s apps [] (t0 :: (pre ++ late)) := by
+  cases hl : s.lastBusActivity with
+  | some l =>
+    rw [hl] at hlate
+    exact never_permanently_silent s apps l hinv hon hl (t0 :: pre) late hlate h3
+  | none =>
+    rw [hl] at hlate
+    exact fresh_polls s apps t0 (pre ++ late) hinv hon hl (fun s' apps' hi' ho' hl' hp' =>
+      never_permanently_silent s' apps' t0 hi' ho' hl' pre late (by rw [hp']; exact hlate) h3)
+
+/-- **`cold_start_transmits`**: a station that is switched online on a dead bus (valid parameters, any
+applications that build encodable telegrams) transmits — in fact it claims the token — no later than
+the third poll that comes more than `T` after its first poll. -/
+theorem cold_start_transmits (p : Params) (apps : Apps) (h1 : p.address < p.hsa) (h2 : p.hsa ≤ 126) (hs : ScriptsOk apps)
+    (t0 : Int) (pre late : List Int) (hlate : ∀ t ∈ late, t0 + (p.silence : Nat) < t) (h3 : 3 ≤ late.length) :
+    TransmitsWithin (Station.new p).setOnline apps [] (t0 :: (pre ++ late)) := by
+  have hinv : Inv (Station.new p).setOnline apps := by
+    have h := inv_new p apps h1 h2 hs
+    exact ⟨h.addr, h.hsa, h.ring, fun ho => by simp [Station.setOnline] at ho, h.gap, h.await1, h.await2, h.app, h.appWait,
+      h.scripts, h.noPassive⟩
+  exact never_permanently_silent_any _ apps hinv rfl t0 pre late hlate h3
+
 /-! ## The three recovery mechanisms at whole-poll level -/
 
 /-- **`claim_progress`** (lost token): a station in `ListenToken` or `ActiveIdle` — with or without a
